@@ -1,11 +1,18 @@
 (* C17 model: transliteration of CleanPath / bufApp (path.go:26-157), with the
    lazily materialised buffer.  Index expressions are nth_error; an index out of
-   range is the outcome Panic.  Loops run on fuel; OutOfFuel is a distinct
-   outcome which the theorems exclude. *)
+   range is the outcome Panic.  The outer loop and the element-copy loop run on
+   fuel; running out of fuel is a distinct outcome (OutOfFuel / SFuel) which the
+   theorems exclude.  The backtracking loop is structurally recursive on w. *)
 From FoxBase Require Import Bytes.
 Open Scope char_scope.
 
 Inductive res := Ok (o : bytes) | Panic | OutOfFuel.
+
+(* outcome of the inner copy loop *)
+Inductive sub (A : Type) := SOk (a : A) | SPanic | SFuel.
+Arguments SOk {A} a.
+Arguments SPanic {A}.
+Arguments SFuel {A}.
 
 Record st := { buf : option bytes;   (* None <-> len(buf) == 0 : not materialised *)
                r : nat; w : nat; trailing : bool }.
@@ -21,7 +28,7 @@ Fixpoint set_nth (s : bytes) (i : nat) (c : ascii) : option bytes :=
 
 Definition zero : ascii := "000".
 
-(* bufApp(&buf, s, w, c) *)
+(* bufApp(&buf, s, w, c); None = index out of range *)
 Definition bufApp (bf : option bytes) (s : bytes) (w : nat) (c : ascii) : option (option bytes) :=
   match bf with
   | None =>
@@ -35,75 +42,109 @@ Definition bufApp (bf : option bytes) (s : bytes) (w : nat) (c : ascii) : option
   | Some bb => option_map Some (set_nth bb w c)
   end.
 
-Definition rd (s : st) (p : bytes) (i : nat) : option ascii :=
-  match buf s with None => nth_b p i | Some bb => nth_b bb i end.
+(* p[i] when len(buf) == 0, buf[i] otherwise *)
+Definition rd (bf : option bytes) (p : bytes) (i : nat) : option ascii :=
+  match bf with None => nth_b p i | Some bb => nth_b bb i end.
 
-(* for w > 1 && X[w] != '/' { w-- } *)
-Fixpoint back (fuel : nat) (s : st) (p : bytes) (w : nat) : option nat :=
-  match fuel with O => Some w | S fuel =>
+(* for w > 1 && X[w] != '/' { w-- }      (X = p or buf) *)
+Fixpoint back (bf : option bytes) (p : bytes) (w : nat) : option nat :=
+  match w with
+  | O => Some O
+  | S w' =>
     if Nat.ltb 1 w then
-      match rd s p w with
+      match rd bf p w with
       | None => None
-      | Some c => if Ascii.eqb c "/" then Some w else back fuel s p (w - 1)
+      | Some c => if Ascii.eqb c "/" then Some w else back bf p w'
       end
-    else Some w end.
+    else Some w
+  end.
 
 (* for r < n && p[r] != '/' { bufApp(&buf, p, w, p[r]); w++; r++ } *)
-Fixpoint copy_el (fuel : nat) (p : bytes) (n : nat) (s : st) : option st :=
-  match fuel with O => Some s | S fuel =>
+Fixpoint copy_el (fuel : nat) (p : bytes) (n : nat) (s : st) : sub st :=
+  match fuel with O => SFuel | S fuel =>
     if Nat.ltb (r s) n then
-      match nth_b p (r s) with None => None | Some c =>
-        if Ascii.eqb c "/" then Some s else
-        match bufApp (buf s) p (w s) c with None => None | Some bf =>
+      match nth_b p (r s) with None => SPanic | Some c =>
+        if Ascii.eqb c "/" then SOk s else
+        match bufApp (buf s) p (w s) c with None => SPanic | Some bf =>
           copy_el fuel p n {| buf := bf; r := S (r s); w := S (w s); trailing := trailing s |} end end
-    else Some s end.
+    else SOk s end.
+
+(* which arm of the switch is taken at p[r] (r < n), evaluating the conditions
+   in order with Go's short-circuit && and ||; KPanic = index out of range *)
+Inductive kase := KSlash | KDotEnd | KDotSlash | KDotDot | KDefault | KPanic.
+
+Definition classify (p : bytes) (n r : nat) : kase :=
+  match nth_b p r with None => KPanic | Some c =>
+  if Ascii.eqb c "/" then KSlash                                   (* p[r] == '/' *)
+  else if Ascii.eqb c "." then
+    if Nat.eqb (r + 1) n then KDotEnd                              (* p[r] == '.' && r+1 == n *)
+    else match nth_b p (r + 1) with None => KPanic | Some c1 =>
+      if Ascii.eqb c1 "/" then KDotSlash                           (* p[r] == '.' && p[r+1] == '/' *)
+      else if Ascii.eqb c1 "." then                                (* p[r] == '.' && p[r+1] == '.' && ... *)
+        if Nat.eqb (r + 2) n then KDotDot
+        else match nth_b p (r + 2) with None => KPanic | Some c2 =>
+          if Ascii.eqb c2 "/" then KDotDot else KDefault end
+      else KDefault end
+  else KDefault end.
 
 Definition finish (p : bytes) (s : st) : res :=
   match buf s with None => Ok (firstn (w s) p) | Some bb => Ok (firstn (w s) bb) end.
 
 Fixpoint loop (fuel : nat) (p : bytes) (n : nat) (s : st) : res :=
   match fuel with O => OutOfFuel | S fuel =>
-  if negb (Nat.ltb (r s) n) then
+  if Nat.ltb (r s) n then
+    match classify p n (r s) with
+    | KPanic => Panic
+    | KSlash => loop fuel p n {| buf := buf s; r := r s + 1; w := w s; trailing := trailing s |}
+    | KDotEnd => loop fuel p n {| buf := buf s; r := r s + 1; w := w s; trailing := true |}
+    | KDotSlash => loop fuel p n {| buf := buf s; r := r s + 2; w := w s; trailing := trailing s |}
+    | KDotDot =>
+        if Nat.ltb 1 (w s) then
+          match back (buf s) p (w s - 1) with
+          | None => Panic
+          | Some w' => loop fuel p n {| buf := buf s; r := r s + 3; w := w'; trailing := trailing s |}
+          end
+        else loop fuel p n {| buf := buf s; r := r s + 3; w := w s; trailing := trailing s |}
+    | KDefault =>
+        (* real path element: add slash if needed, then copy the element *)
+        match (if Nat.ltb 1 (w s) then
+                 match bufApp (buf s) p (w s) "/" with
+                 | None => None
+                 | Some bf => Some {| buf := bf; r := r s; w := S (w s); trailing := trailing s |}
+                 end
+               else Some s) with
+        | None => Panic
+        | Some s1 =>
+          match copy_el (S n) p n s1 with
+          | SPanic => Panic
+          | SFuel => OutOfFuel
+          | SOk s2 => loop fuel p n s2
+          end
+        end
+    end
+  else
+    (* re-append trailing slash, return p[:w] or string(buf[:w]) *)
     if trailing s && Nat.ltb 1 (w s) then
       match bufApp (buf s) p (w s) "/" with
       | None => Panic
       | Some bf => finish p {| buf := bf; r := r s; w := S (w s); trailing := trailing s |}
       end
     else finish p s
-  else
-  match nth_b p (r s) with None => Panic | Some c =>
-  if Ascii.eqb c "/" then loop fuel p n {| buf := buf s; r := S (r s); w := w s; trailing := trailing s |}
-  else if Ascii.eqb c "." && Nat.eqb (S (r s)) n then
-         loop fuel p n {| buf := buf s; r := S (r s); w := w s; trailing := true |}
-  else match (if Ascii.eqb c "." then nth_b p (S (r s)) else Some "a") with None => Panic | Some c1 =>
-  if Ascii.eqb c "." && Ascii.eqb c1 "/" then loop fuel p n {| buf := buf s; r := r s + 2; w := w s; trailing := trailing s |}
-  else
-  let dd := Ascii.eqb c "." && Ascii.eqb c1 "." in
-  match (if dd && negb (Nat.eqb (r s + 2) n) then nth_b p (r s + 2) else Some "/") with None => Panic | Some c2 =>
-  if dd && (Nat.eqb (r s + 2) n || Ascii.eqb c2 "/") then
-    if Nat.ltb 1 (w s) then
-      match back (w s) s p (w s - 1) with
-      | None => Panic
-      | Some w' => loop fuel p n {| buf := buf s; r := r s + 3; w := w'; trailing := trailing s |}
-      end
-    else loop fuel p n {| buf := buf s; r := r s + 3; w := w s; trailing := trailing s |}
-  else
-    (* real path element *)
-    match (if Nat.ltb 1 (w s) then
-             match bufApp (buf s) p (w s) "/" with
-             | None => None
-             | Some bf => Some {| buf := bf; r := r s; w := S (w s); trailing := trailing s |}
-             end
-           else Some s) with None => Panic | Some s1 =>
-    match copy_el (S n) p n s1 with None => Panic | Some s2 => loop fuel p n s2 end end
-  end end end end.
+  end.
 
 Definition cleanpath (p : bytes) : res :=
   match p with
   | [] => Ok ["/"]
   | c0 :: _ =>
     let n := List.length p in
-    let tr := Nat.ltb 1 n && match nth_b p (n - 1) with Some c => Ascii.eqb c "/" | None => false end in
-    if Ascii.eqb c0 "/" then loop (2 * n + 4) p n {| buf := None; r := 1; w := 1; trailing := tr |}
-    else loop (2 * n + 4) p n {| buf := Some ("/" :: repeat zero n); r := 0; w := 1; trailing := tr |}
+    (* trailing := n > 1 && p[n-1] == '/' *)
+    match (if Nat.ltb 1 n then
+             match nth_b p (n - 1) with Some c => Some (Ascii.eqb c "/") | None => None end
+           else Some false) with
+    | None => Panic
+    | Some tr =>
+      if Ascii.eqb c0 "/" then loop (n + 2) p n {| buf := None; r := 1; w := 1; trailing := tr |}
+      else (* buf = make([]byte, n+1) or buf[:n+1]; buf[0] = '/' *)
+        loop (n + 2) p n {| buf := Some ("/" :: repeat zero n); r := 0; w := 1; trailing := tr |}
+    end
   end.
